@@ -179,6 +179,8 @@ def in_modelled_domain(expr) -> bool:
             k = qx.val_class(v)[0]
         except Exception:  # pylint: disable=broad-except
             return False, None
+        if k == "Sym" and isinstance(e, sympy.Function) and not getattr(v, "free_symbols", None):
+            return False, None   # a closed function value SymPy cannot evaluate numerically (besselj(1500, 5120): hypsum does not converge)
         opaque_args = any(qx.val_class(x)[0] == "Other" for x in vals)
         if isinstance(e, (Abs, sympy.Min, sympy.Max, Pow)) and opaque_args:
             return False, None
@@ -656,7 +658,7 @@ def run(ctx):
     cases, hist = build_cases(ctx, ctx.pick(1400, 22000), ctx.pick(500, 7000), ctx.pick(100, 1000))
     bad = coqrun.eval_cases(ctx, "collect", qx.PREAMBLE_COLLECT, [c["lit"] for c in cases],
         "fun c : qexpr * cres * option dim * cres => let '(e, o, ov, o2) := c in "
-        "cres_eqb (collect e) o && cres_eqb (quantity_ctor e ov) o2")
+        "cres_eqb (collect e) o && cres_eqb (quantity_ctor e ov) o2", case_type="qexpr * cres * option dim * cres")
     for i in bad[:40]:
         c = cases[i]
         why = spec_contradicted(c["expr"], c["obs"])
@@ -673,7 +675,7 @@ def run(ctx):
     bad_ev = coqrun.eval_cases(ctx, "evalbuild", qx.PREAMBLE_COLLECT, [c["lit"] for c in ev],
         "fun c : qexpr * cres * cres => let '(e, o, o2) := c in cres_eqb (collect e) o && "
         "match quantity_ctor e None, o2 with Ok (v, d), Ok (w, d2) => val_eqb v w && (is_any v || deqb d d2) "
-        "| Err x, Err y => N.eqb x y | _, _ => false end")
+        "| Err x, Err y => N.eqb x y | _, _ => false end", case_type="qexpr * cres * cres")
     for i in bad_ev[:20]:
         c = ev[i]
         ok_collect = spec_contradicted(c["expr"], c["obs"])
@@ -688,7 +690,7 @@ def run(ctx):
     sg = sign_cases(ctx, ctx.pick(40, 400))
     bad_sg = coqrun.eval_cases(ctx, "sign", "From VP Require Import Model.QSign.\n" + qx.PREAMBLE_COLLECT, [c["lit"] for c in sg],
         "fun c : val * option bool => match qty_is_positive (fst c), snd c with Some a, Some b => Bool.eqb a b | None, _ => true "
-        "| Some _, None => false end")
+        "| Some _, None => false end", case_type="val * option bool")
     for i in bad_sg[:10]:
         c = sg[i]
         ctx.violation(f"C05:sign:{c['lit']}", f"{c['desc']}: the sign claim published to SymPy differs from the model (a positive value must never "
